@@ -43,12 +43,26 @@ def write_if_changed(path, txt):
 # ----------------------------------------------------------------------------------------------
 # 1. regeneration of the C interface from the m4 sources
 # ----------------------------------------------------------------------------------------------
+# files written by ./configure: a bare git worktree of the repository does not have them; they are then taken from
+# the configured reference tree ($VERIF_CONFIGURED_REPO, default /repo) -- they only depend on the configure options
+CONFIGURED = {"ppl_interface_instantiations.m4": "interfaces", "ppl_c_version.h": os.path.join("interfaces", "C")}
+def configured_file(repo, name):
+    p = os.path.join(repo, CONFIGURED[name], name)
+    if os.path.exists(p):
+        return p
+    q = os.path.join(os.environ.get("VERIF_CONFIGURED_REPO", "/repo"), CONFIGURED[name], name)
+    if os.path.exists(q):
+        return q
+    raise RuntimeError("%s is missing (run ./configure in %s)" % (name, repo))
+
 def m4_inputs(repo):
     d = os.path.join(repo, "interfaces")
     c = os.path.join(d, "C")
     files = [os.path.join(c, f) for f in sorted(os.listdir(c)) if f.endswith(".m4")]
     files += [os.path.join(d, f) for f in sorted(os.listdir(d)) if f.endswith(".m4") or f == "ppl_interface_generator_copyright"]
-    files += [os.path.join(c, "ppl_c_header.h"), os.path.join(c, "ppl_c_version.h")] + [os.path.join(c, f) for f in MIRRORED]
+    files = [f for f in files if os.path.basename(f) not in CONFIGURED]
+    files += [configured_file(repo, n) for n in sorted(CONFIGURED)]
+    files += [os.path.join(c, "ppl_c_header.h")] + [os.path.join(c, f) for f in MIRRORED]
     files.append(os.path.join(d, "interfaced_boxes.hh"))
     return files
 
@@ -56,9 +70,9 @@ def m4_inputs(repo):
 # resolves to the regenerated header and never to a stale generated file lying in interfaces/C
 MIRRORED = ["ppl_c_implementation_common.cc", "ppl_c_implementation_common_defs.hh", "ppl_c_implementation_common_inlines.hh"]
 
-def run_m4(repo, src):
+def run_m4(repo, src, conf):
     d = os.path.join(repo, "interfaces")
-    r = subprocess.run(["m4", "--prefix-builtin", "-I" + d, "-I" + os.path.join(d, "C"), os.path.join(d, "C", src)],
+    r = subprocess.run(["m4", "--prefix-builtin", "-I" + d, "-I" + os.path.join(d, "C"), "-I" + conf, os.path.join(d, "C", src)],
                        stdout=subprocess.PIPE, stderr=subprocess.PIPE, universal_newlines=True)
     if r.returncode != 0:
         raise RuntimeError("m4 failed on %s:\n%s" % (src, r.stderr[-2000:]))
@@ -110,10 +124,14 @@ PPL_HH = """/* stand-in for the generated src/ppl.hh: includes the working tree'
 
 def regenerate(repo, out):
     from concurrent.futures import ThreadPoolExecutor
+    conf = os.path.join(out, "configured")
+    os.makedirs(conf, exist_ok=True)
+    for n in CONFIGURED:
+        write_if_changed(os.path.join(conf, n), open(configured_file(repo, n)).read())
     with ThreadPoolExecutor(3) as ex:
-        fh = ex.submit(run_m4, repo, "ppl_interface_generator_c_h.m4")
-        fc = ex.submit(run_m4, repo, "ppl_interface_generator_c_cc_files.m4")
-        fhh = ex.submit(run_m4, repo, "ppl_interface_generator_c_hh_files.m4")
+        fh = ex.submit(run_m4, repo, "ppl_interface_generator_c_h.m4", conf)
+        fc = ex.submit(run_m4, repo, "ppl_interface_generator_c_cc_files.m4", conf)
+        fhh = ex.submit(run_m4, repo, "ppl_interface_generator_c_hh_files.m4", conf)
         domains_h, cc_blob, hh_blob = fh.result(), fc.result(), fhh.result()
     files = {}
     files["ppl_c_domains.h"] = domains_h
@@ -129,7 +147,7 @@ def regenerate(repo, out):
     for k, v in files.items():
         write_if_changed(os.path.join(out, k), v)
     cdir = os.path.join(repo, "interfaces", "C")
-    full = expand_header(os.path.join(cdir, "ppl_c_header.h"), [out, cdir])
+    full = expand_header(os.path.join(cdir, "ppl_c_header.h"), [out, conf, cdir])
     write_if_changed(os.path.join(out, "ppl_c.h"), full)
     # remove stale generated domain files
     keep = set(files) | {"ppl_c.h"}
@@ -181,7 +199,7 @@ def parse_prototypes(out):
     return protos
 
 def instantiations(repo):
-    txt = open(os.path.join(repo, "interfaces", "ppl_interface_instantiations.m4")).read()
+    txt = open(configured_file(repo, "ppl_interface_instantiations.m4")).read()
     a = re.search(r"m4_interface_classes_names', `([^']*)'", txt).group(1).split("@")
     b = re.search(r"m4_cplusplus_classes_names', `([^']*)'", txt).group(1).split("@")
     if len(a) != len(b):
